@@ -64,6 +64,11 @@ type VM struct {
 	Steps int
 	// CycleMade: a compound item was made reachable from itself.
 	CycleMade bool
+	// UnwoundLeft: number of items that were still on the evaluation stacks
+	// of contexts removed by exception unwinding (contexts with their own
+	// stack). Whether the reference keeps counting them against MaxStackSize
+	// could not be settled.
+	UnwoundLeft int
 	// Thrown counts exceptions raised (THROW or engine-raised catchable ones).
 	Thrown int
 
@@ -489,6 +494,14 @@ func (vm *VM) throw(ex *Item) {
 			if t.state == inFinally || (t.state == inCatch && t.finallyPtr < 0) {
 				f.try = f.try[:len(f.try)-1]
 				continue
+			}
+			for _, d := range vm.frames[i+1:] {
+				if d.sh != f.sh {
+					// Items a context leaves on its own evaluation stack
+					// when an exception unwinds it are unreachable (not
+					// counted by the model); see UnwoundLeft.
+					vm.UnwoundLeft += len(d.sh.stack)
+				}
 			}
 			vm.frames = vm.frames[:i+1]
 			if t.state == inTry && t.catchPtr >= 0 {
